@@ -42,11 +42,11 @@ def o_sign(ctx, case):
     S = sc.lib_suite(suite)
     pk = S.SkToPk(sk)
     want_pk = blssig.sk_to_pk(sk)
-    ctx.check(type(pk) is bytes and pk == want_pk, "sign", "pubkey", case,
+    ctx.check(isinstance(pk, bytes) and pk == want_pk, "sign", "pubkey", case,
               f"SkToPk = {pk!r}, draft: compress(sk*G1) = {want_pk.hex()}")
     sig = S.Sign(sk, msg)
     want = blssig.sign(suite, sk, msg)
-    ctx.check(type(sig) is bytes and sig == want, "sign", "signature", case,
+    ctx.check(isinstance(sig, bytes) and sig == want, "sign", "signature", case,
               f"{S.__name__}.Sign = {sig.hex() if isinstance(sig, bytes) else sig!r}, draft value = {want.hex()}")
     if "expect_sig" in case:
         if want != unhx(case["expect_sig"]) or want_pk != unhx(case["expect_pk"]):
@@ -93,7 +93,7 @@ def o_pop(ctx, case):
     S = sc.lib_suite("pop")
     proof = S.PopProve(sk)
     want = blssig.pop_prove(sk)
-    ctx.check(type(proof) is bytes and proof == want, "pop_prove", "proof", case,
+    ctx.check(isinstance(proof, bytes) and proof == want, "pop_prove", "proof", case,
               f"PopProve = {proof.hex() if isinstance(proof, bytes) else proof!r}, draft value = {want.hex()}")
     ctx.label("pop_prove")
     ctx.nontrivial(("p", sk))
@@ -110,7 +110,7 @@ def o_aggregate(ctx, case):
     pts = [B.signature_point(s) for s in sigs]
     want = B.signature_bytes(blssig.aggregate_points(pts))
     got = S.Aggregate(sigs)
-    ctx.check(type(got) is bytes and got == want, "aggregate", "value", case,
+    ctx.check(isinstance(got, bytes) and got == want, "aggregate", "value", case,
               f"Aggregate = {got.hex() if isinstance(got, bytes) else got!r}, group sum encodes as {want.hex()}")
     if "expect" in case:
         if want != unhx(case["expect"]):
